@@ -7,7 +7,16 @@ import Qhttp.Model.Tls
 namespace Qhttp
 namespace Vx
 
+/-- what the lambda connected to `headersParsed` in `ServerPrivate::process` does -/
+inductive LAct
+  | route (drop : Int)      -- handler->route(httpSocket, httpSocket->path().mid(drop))
+  | err (code : Int)        -- httpSocket->writeError(code)
+deriving DecidableEq, Repr
+
 inductive Act
+  | newHttp                 -- httpSocket = new Socket(socket, this)
+  | onDisconnectedDelete    -- connect(httpSocket, &Socket::disconnected, httpSocket, &Socket::deleteLater)
+  | onHeadersParsed (body : List LAct)   -- connect(httpSocket, &Socket::headersParsed, [..]{ body })
   | newSsl                  -- socket = new QSslSocket(this)
   | newTcp                  -- socket = new QTcpSocket(this)
   | onEncryptedProcess      -- connect(socket, &QSslSocket::encrypted, [..]{ d->process(socket); })
@@ -20,8 +29,10 @@ deriving DecidableEq, Repr
 
 structure Env where
   tlsNull : Bool := true    -- d->configuration.isNull()
+  hasHandler : Bool := true -- ServerPrivate::handler != nullptr (when the lambda runs)
 
 def act (s : List Act) (a : Act) : List Act := s ++ [a]
+def lact (s : List LAct) (a : LAct) : List LAct := s ++ [a]
 
 end Vx
 end Qhttp
